@@ -1,6 +1,7 @@
 package checks
 
 import (
+	"strconv"
 	"bytes"
 	"fmt"
 	"os"
@@ -257,6 +258,31 @@ func c02CheckLocation(t *fw.T, c *fw.Case, d run.Doc, o *run.Obs) {
 		}
 		if o.ErrText != want {
 			t.Violation("trace-text", fmt.Sprintf("Error() = %q, expected %q", o.ErrText, want))
+		}
+	}
+	// (f) path:line entries that the message itself carries (an error passed on by a PASTE keeps the chain of the macro's
+	// file in its text): each must name a file of the project and a line that exists in it
+	for i, l := range strings.Split(o.Msg, "\n") {
+		if i == 0 {
+			continue
+		}
+		k := strings.LastIndexByte(l, ':')
+		if k <= 0 {
+			continue
+		}
+		ln, err := strconv.Atoi(l[k+1:])
+		if err != nil {
+			continue
+		}
+		t.Count("embedded_trace_entries_checked")
+		fc, ok := projectFile(d, o, l[:k])
+		if !ok {
+			t.Violation("embedded-trace-file-not-in-project", fmt.Sprintf("the message %q names %q which is not a file of the project", o.Msg, l[:k]))
+			break
+		}
+		if n := 1 + bytes.Count(fc, []byte("\n")) + bytes.Count(fc, []byte("\r")); ln < 1 || ln > n {
+			t.Violation("embedded-trace-line-out-of-range", fmt.Sprintf("the message %q names line %d of %q which has %d lines", o.Msg, ln, l[:k], n))
+			break
 		}
 	}
 	t.Distinct(fmt.Sprintf("%s depth=%d %s", run.MsgTemplate(o.Msg), depth, conv))
